@@ -188,6 +188,10 @@ def decorate(text, k):
         return text[:root_end] + '<!-- roCreate roDelete roElementAction -->' + text[root_end:]
     if k % 4 == 2:
         return '<?xml-stylesheet type="text/xsl" href="mos.xsl"?>' + text[:root_end] + '<?pi roStorySend?>' + text[root_end:]
+    if h64(text, 'doctype') % 2:
+        # a document type declaration: a system identifier, or an internal subset declaring an entity
+        return ('<!DOCTYPE mos SYSTEM "mos.dtd">\n' if h64(text, 'dt2') % 2 else
+                '<!DOCTYPE mos [<!ENTITY station "BBC">]>\n') + text
     return text + '\n\n'
 
 
